@@ -363,11 +363,23 @@ def signature(obj):
     """
     if isinstance(obj, partial):
         sig = _util.funcsigs.signature(obj.func)
-        sig = set_default_sources(sig, obj.func)
+        sig = _upgrade_retrieved(sig, obj.func)
         return _mask(sig, len(obj.args), False, False, False, False,
                      obj.keywords or {}, obj)
     sig =_util.funcsigs.signature(obj)
-    return set_default_sources(sig, obj)
+    return _upgrade_retrieved(sig, obj)
+
+
+def _upgrade_retrieved(sig, obj):
+    """Upgrades what `inspect.signature` reports for ``obj``: the annotations
+    are those of the function it found by following ``__wrapped__``, written
+    in that function's module"""
+    try:
+        defined_by = _util.funcsigs.unwrap(
+            obj, stop=lambda f: hasattr(f, '__signature__'))
+    except ValueError: # __wrapped__ goes in circles
+        defined_by = obj
+    return Signature._upgrade(sig, defined_by, default_sources(sig, obj))
 
 
 def copy_sources(src, func_swap={}, increase=False):
